@@ -121,6 +121,8 @@ Seeds ==
          IN {<<cols(h, al), prof>> : h \in hs, al \in {NUCLEOTIDS, AMINOACIDS}}
             \cup {<<NewArgs("align", NUCLEOTIDS, 0, <<Row(nA, r), Row(nB, o), Row(nC, o2)>>), prof>> :
                      r \in SeqsLen({65, 45}, 5), o \in {<<67, 65, 67, 65, 67>>, <<67, 45, 65, 45, 82>>}, o2 \in {<<45, 45, 45, 45, 45>>, <<78, 65, 71, 71, 65>>}}
+            \cup {<<NewArgs("align", AMINOACIDS, 0, [r \in 1..3 |-> Row(<<114, ZERO + r>>, [c \in 1..Pow(7, 3) |->
+                       <<83, 84, 65, 67, 115, 45, 75>>[(((c - 1) \div Pow(7, 3 - r)) % 7) + 1]])]), prof>>}     \* S T A C s - K: strong / weak groups
             \cup {<<NewArgs("align", NUCLEOTIDS, 0, <<Row(nA, <<65, 45, 67>>), Row(nB, <<71, 45, 67>>), Row(nC, <<71, 65, 45>>)>>), prof>>,
                    <<NewArgs("align", NUCLEOTIDS, 0, <<Row(nA, <<>>)>>), prof>>}
     [] Profile = "C15" ->
@@ -236,6 +238,8 @@ InstC14(h) ==
   \cup {Inst("CharStats", r, NoArg), Inst("UniqueCharacters", r, NoArg), Inst("NbVariableSites", r, NoArg), Inst("InformativeSites", r, NoArg),
         Inst("AvgAllelesPerSite", r, NoArg), Inst("CountProfile", r, NoArg), Inst("CountDifferences", r, NoArg)}
   \cup {Inst("CharStatsSite", r, [site |-> s]) : s \in sites}
+  \cup {Inst("SiteConservation", r, [site |-> s]) : s \in sites \cup (IF W <= 36 THEN 0..(W - 1) ELSE {})}
+  \cup {Inst("AlphabetInfo", r, [chars |-> <<65, 97, 67, 81, 113, 78, 45, 88, 42, 85>>])}
   \cup {Inst("CharStatsSeq", r, [idx |-> s]) : s \in {-1, 0, Len(o.rows) - 1, Len(o.rows)}}
   \cup (IF Len(o.rows) > 0 THEN {Inst("Entropy", r, [site |-> s, rmgaps |-> b]) : s \in sites \cup (IF W <= 36 THEN 0..(W - 1) ELSE {}), b \in Bools} ELSE {})
   \cup (IF Len(o.rows) > 0 THEN {Inst("Pssm", r, [log |-> lg, pc |-> pc, norm |-> nm]) : lg \in Bools, pc \in {"0", "1", "0.5"}, nm \in {0, 1}} \ {Inst("Pssm", r, [log |-> TRUE, pc |-> "0", norm |-> nm]) : nm \in {0, 1}} ELSE {})
